@@ -48,6 +48,9 @@ func (hs *clientHandshakeStateTLS13) utlsReadServerCertificate(msg any) (process
 	return nil, nil
 }
 
+// maxCompressedCertZstdWindow is the largest zstd Window_Size accepted in a CompressedCertificate.
+const maxCompressedCertZstdWindow = 8 << 20
+
 // called by (*clientHandshakeStateTLS13).utlsReadServerCertificate() when UtlsCompressCertExtension is used
 func (hs *clientHandshakeStateTLS13) decompressCert(m utlsCompressedCertificateMsg) (*certificateMsgTLS13, error) {
 	var (
@@ -82,7 +85,13 @@ func (hs *clientHandshakeStateTLS13) decompressCert(m utlsCompressedCertificateM
 		decompressed = rc
 
 	case CertCompressionZstd:
-		rc, err := zstd.NewReader(compressed)
+		// The frame header names the window the decoder has to keep, up to 512 MiB by default, and the
+		// decoder allocates it (twice over) before the first block is decoded. Accept no more than the
+		// 8 MiB RFC 8878 section 3.1.1.1.2 recommends every decoder to support.
+		rc, err := zstd.NewReader(compressed,
+			zstd.WithDecoderMaxWindow(maxCompressedCertZstdWindow),
+			zstd.WithDecoderLowmem(true),
+			zstd.WithDecoderConcurrency(1))
 		if err != nil {
 			c.sendAlert(alertBadCertificate)
 			return nil, fmt.Errorf("failed to open zstd reader: %w", err)
